@@ -1145,6 +1145,7 @@ func main() {
 		r.Set("nesting_configurations", len(jobs))
 		r.Sample(mcase{Kind: "nesting", Mesh: "forest [-1 0 0] axis 2 dir -1 corner 3", Pattern: []int{-1, 0, 0}})
 	})
+	r.Isolate("self-intersections", func() { selfIntersectionStage(r) })
 	r.Isolate("2d", func() {
 		var oct []seg
 		for i := 0; i < 8; i++ {
